@@ -194,6 +194,7 @@ def do_infer(case, ob, site):
                         out.append(('val_to_signed_integer-inverts', z3.Implies(q.cond(), to_cond(q.result == v))))
         return out
     check_paths(ob, 'infer(b=%s,signed=%s)' % (b, signed), paths, site, v.t, acc, goals)
+    witness_pass(case, ob, site, v, acc)
 
 
 def do_const(case, ob, site):
@@ -210,6 +211,41 @@ def do_const(case, ob, site):
             return [('stores-encoding', to_bv(val, VW + 2) == (to_bv(v, VW + 2) & ((1 << b) - 1))), ('bitwidth', to_cond(bw == b))]
         return [('stores-encoding', to_cond(val == (v & ((1 << bw) - 1)))), ('bitwidth', to_cond(bw == min_width(v, signed)))]
     check_paths(ob, 'Const(b=%s,signed=%s)' % (b, signed), paths, site, v.t, acc, goals)
+    witness_pass(case, ob, site, v, acc)
+
+
+def boundary_witnesses(v, acc):
+    """solver-chosen plain-int witnesses at every boundary of the acceptance predicate (accepted next to rejected), plus 0, +-1"""
+    out = {0, 1, -1}
+    vt = v.t
+    one = z3.BitVecVal(1, vt.size())
+    for f in (z3.And(acc, z3.Not(z3.substitute(acc, (vt, vt + one))), vt < (1 << (vt.size() - 2))),
+              z3.And(acc, z3.Not(z3.substitute(acc, (vt, vt - one))), vt > -(1 << (vt.size() - 2))),
+              z3.And(z3.Not(acc), z3.substitute(acc, (vt, vt + one)), vt < (1 << (vt.size() - 2))),
+              z3.And(z3.Not(acc), z3.substitute(acc, (vt, vt - one)), vt > -(1 << (vt.size() - 2)))):
+        s_ = z3.Solver()
+        s_.add(f)
+        seen = 0
+        while seen < 3 and s_.check() == z3.sat:
+            val = s_.model().eval(vt, model_completion=True).as_signed_long()
+            out.add(val)
+            s_.add(vt != val)
+            seen += 1
+    return sorted(out)
+
+
+def witness_pass(case, ob, site, v, acc):
+    """plain Python ints through the real function (code that dispatches on `type(x) is int` is out of a proxy's reach): the
+    values are the solver's models of the boundaries of the documented acceptance predicate; a bounded witness check"""
+    for val in boundary_witnesses(v, acc):
+        bad, text = replay({'case': case, 'value': val})
+        ob.n += 1
+        ob.structural += 1
+        if not bad:
+            ob.unsat += 1
+        else:
+            ob.sat.append({'property': PROP, 'obligation': 'plain-int-boundary-witness', 'site': site + ':plain-int', 'case': case,
+                           'value': val, 'detail': text})
 
 
 def do_vstr(case, ob, site):
@@ -426,8 +462,37 @@ def site_of(c):
     return s
 
 
+def plain_witnesses(case, ob, site):
+    """plain Python ints at the width boundaries through the real helpers (complements the proxy runs: code that dispatches on
+    the exact type of its argument is only reached by real ints); a bounded witness check"""
+    k, b = case['k'], case.get('b')
+    if k == 'signedint' or k == 'format':
+        vals = sorted({0, 1, (1 << (b - 1)) - 1, 1 << (b - 1), (1 << b) - 1, ((1 << b) - 1) ^ 1} & set(range(0, 1 << b)))
+    elif k == 'twos':
+        vals = sorted({-(1 << (b - 1)), -(1 << (b - 1)) + 1, -1, 0, 1, (1 << (b - 1)) - 1} & set(range(-(1 << (b - 1)), 1 << (b - 1))))
+    else:
+        return
+    for val in vals:
+        for st in (site, site + ':roundtrip2'):
+            if k == 'signedint' and st != site:
+                continue
+            if k == 'format' and st != site and case['f'] == 's':
+                continue         # the string->value->string direction takes signed renderings; covered symbolically
+            if k == 'twos' and st != site:
+                val = val & ((1 << b) - 1)       # this direction starts from an encoding in [0, 2^b)
+            bad, text = replay({'case': case, 'value': val, 'site': st})
+            ob.n += 1
+            ob.structural += 1
+            if not bad:
+                ob.unsat += 1
+            else:
+                ob.sat.append({'property': PROP, 'obligation': 'plain-int-boundary-witness', 'site': st + ':plain-int', 'case': case,
+                               'value': val, 'detail': text})
+
+
 def run_case(case, ob, tier):
     KINDS[case['k']](case, ob, site_of(case))
+    plain_witnesses(case, ob, site_of(case))
 
 
 def replay(cex):
